@@ -11,7 +11,7 @@ import itertools
 from fractions import Fraction as F
 from . import core, pbx
 from .pbx import fr
-from .c02 import impl_public, recheck_kept
+from .c02 import impl_public, recheck_kept, strict_mode_check
 
 
 def impl_raw(rule, op, x, y):
@@ -246,6 +246,10 @@ def run(ctx: core.Check):
         exact = (not public) or (stream in ("public-int", "public-intdtype", "public-ivlobj", "public-scaled") and op != "div")
         impl = impl_public(op, rule, x, y, bare=False, int_dtype=(stream == "public-intdtype"),
                            y_interval=(stream == "public-ivlobj")) if public else impl_raw(rule, op, x, y)
+        if public:
+            strict_mode_check(ctx, "C03", stream, op, rule, x, y, impl,
+                              lambda: impl_public(op, rule, x, y, bare=False, int_dtype=(stream == "public-intdtype"), keep=False,
+                                                  y_interval=(stream == "public-ivlobj"), wmode="error"))
         model = pbx.parse_reply(rep)
         if pbx.same(impl, model, exact):
             ctx.tie_ok()
